@@ -9,5 +9,5 @@ class IntegratorWHFast512(ctypes.Structure):
                 ("is_synchronized", ctypes.c_uint),
                 ("_N_allocated", ctypes.c_uint),
                 ("recalculate_constants", ctypes.c_uint),
-                ("_p_jh", ctypes.POINTER(Particle)),
+                ("_p_jh", ctypes.c_void_p), # struct reb_particle_avx512*, no python mirror
                 ("_p_jh0", Particle*4)]
